@@ -85,6 +85,82 @@ Pop(s, n) == [i \in 1..Cardinality(Instantiable(s)) |->
                 LET e == CHOOSE e \in Instantiable(s) : Cardinality({x \in Instantiable(s) : x < e}) = i - 1 IN
                 [id |-> IdOf(e), ent |-> s.ents[e].name, params |-> Params(s, s.ents[e].name, n)]]
 
+(* ---- single violations of a conforming population (C03 on generated schemas) ---- *)
+(* what kind of value a parameter of type t takes *)
+RECURSIVE BaseKindOf(_, _)
+BaseKindOf(s, b) == IF b \in Simple THEN b
+                    ELSE IF IsEnt(s, b) THEN "entity"
+                    ELSE LET ty == TypeByName(s, b) IN
+                         CASE ty.k \in {"simple", "rename"} -> BaseKindOf(s, ty.base.base)
+                           [] ty.k = "enum" -> "enum" [] ty.k = "select" -> "select" [] ty.k = "aggr" -> "aggr"
+KindOfRef(s, t) == IF t.agg # "none" THEN "aggr" ELSE BaseKindOf(s, t.base)
+AttrAt(s, e, j) == AttrDecl(s, AttrOrder(s, e)[j])
+(* a literal of a kind that is clearly wrong for a parameter of kind kd *)
+WrongLit(kd) == IF kd \in {"STRING", "BINARY"} THEN [k |-> "tok", t |-> "7"] ELSE [k |-> "tok", t |-> "'x'"]
+FaultClasses == {"few", "many", "wrongkind", "unknown_kw", "abstract_kw", "bad_enum", "star_not_derived", "missing_aggr",
+                 "dangling_ref", "wrongtype_ref", "select_outside", "dup_id", "unterminated_inst", "unterminated_str",
+                 \* the same violations in an element of an aggregate (the element readers are separate code)
+                 "elem_dangling_ref", "elem_wrongtype_ref", "elem_wrongkind", "elem_bad_enum"}
+ElemApplicable(s, pop, cl, a, v) ==
+  /\ a.ty.agg # "none" /\ "inner" \notin DOMAIN a.ty /\ v.k = "list" /\ Len(v.items) > 0
+  /\ LET ek == BaseKindOf(s, a.ty.base) IN
+     (CASE cl = "elem_dangling_ref" -> ek = "entity"
+        [] cl = "elem_wrongtype_ref" -> ek = "entity" /\ \E q \in 1..Len(pop) : ~IsA(s, pop[q].ent, a.ty.base)
+        [] cl = "elem_wrongkind" -> ek \in (Simple \ {"NUMBER"}) \cup {"enum", "entity"}
+        [] cl = "elem_bad_enum" -> ek = "enum"
+        [] OTHER -> FALSE)
+(* is class cl applicable to parameter j of instance number i of pop (j = 0: the instance as a whole)? *)
+Applicable(s, pop, cl, i, j) ==
+  LET x == pop[i] IN
+  IF j = 0 THEN cl \in {"few", "many", "unknown_kw", "unterminated_inst"} \/ (cl = "dup_id" /\ i > 1)
+                \/ (cl = "abstract_kw" /\ \E a \in 1..Len(s.ents) : s.ents[a].abstract)
+  ELSE /\ j \in 1..Len(x.params) /\ x.params[j].k # "null"
+       /\ LET a == AttrAt(s, x.ent, j)
+               kd == KindOfRef(s, a.ty)
+           IN CASE cl = "wrongkind" -> kd \in Simple \cup {"enum", "entity", "aggr"} /\ kd # "NUMBER"
+                [] cl = "bad_enum" -> kd = "enum"
+                [] cl = "star_not_derived" -> TRUE
+                [] cl = "missing_aggr" -> kd = "aggr" /\ ~a.opt
+                [] cl = "dangling_ref" -> kd = "entity"
+                [] cl = "wrongtype_ref" -> kd = "entity" /\ \E q \in 1..Len(pop) : ~IsA(s, pop[q].ent, a.ty.base)
+                [] cl = "select_outside" -> kd = "select"
+                [] cl = "unterminated_str" -> kd = "STRING"
+                [] cl \in {"elem_dangling_ref", "elem_wrongtype_ref", "elem_wrongkind", "elem_bad_enum"} -> ElemApplicable(s, pop, cl, a, x.params[j])
+                [] OTHER -> FALSE
+(* the faulty instance *)
+Faulty(s, pop, cl, i, j, n) ==
+  LET x == pop[i]
+      Set(v) == [x EXCEPT !.params = [x.params EXCEPT ![j] = v]]
+  IN CASE cl = "few" -> [x EXCEPT !.params = SubSeq(x.params, 1, Len(x.params) - 1)]
+       [] cl = "many" -> [x EXCEPT !.params = Append(x.params, [k |-> "tok", t |-> "1"])]
+       [] cl = "unknown_kw" -> [x EXCEPT !.ent = "nosuch_entity"]
+       [] cl = "abstract_kw" -> LET a == CHOOSE a \in 1..Len(s.ents) : s.ents[a].abstract IN
+                                [x EXCEPT !.ent = s.ents[a].name, !.params = Params(s, s.ents[a].name, n)]
+       [] cl = "dup_id" -> [x EXCEPT !.id = pop[1].id]
+       [] cl = "wrongkind" -> Set(WrongLit(KindOfRef(s, AttrAt(s, x.ent, j).ty)))
+       [] cl = "bad_enum" -> Set([k |-> "enum", item |-> "nosuch_item"])
+       [] cl = "star_not_derived" -> Set([k |-> "tok", t |-> "*"])
+       [] cl = "missing_aggr" -> Set(Null)
+       [] cl = "dangling_ref" -> Set([k |-> "ref", id |-> 999])
+       [] cl = "wrongtype_ref" -> LET q == CHOOSE q \in 1..Len(pop) : ~IsA(s, pop[q].ent, AttrAt(s, x.ent, j).ty.base) IN Set([k |-> "ref", id |-> pop[q].id])
+       [] cl = "select_outside" -> Set([k |-> "typed", ty |-> "nosuch_t", v |-> [k |-> "tok", t |-> "'x'"]])
+       [] cl \in {"elem_dangling_ref", "elem_wrongtype_ref", "elem_wrongkind", "elem_bad_enum"} ->
+            LET a == AttrAt(s, x.ent, j)
+                last == Len(x.params[j].items)
+                v == CASE cl = "elem_dangling_ref" -> [k |-> "ref", id |-> 999]
+                       [] cl = "elem_wrongtype_ref" -> LET q == CHOOSE q \in 1..Len(pop) : ~IsA(s, pop[q].ent, a.ty.base) IN [k |-> "ref", id |-> pop[q].id]
+                       [] cl = "elem_wrongkind" -> WrongLit(BaseKindOf(s, a.ty.base))
+                       [] cl = "elem_bad_enum" -> [k |-> "enum", item |-> "nosuch_item"]
+            IN Set([x.params[j] EXCEPT !.items = [@ EXCEPT ![last] = v]])
+       [] OTHER -> x        \* unterminated_inst / unterminated_str: the text of the instance is cut by the renderer
+(* one case per class: the first and the last place where the class applies *)
+Places(s, pop, cl) == {<<i, j>> \in (1..Len(pop)) \X (0..12) : Applicable(s, pop, cl, i, j)}
+First(S) == CHOOSE p \in S : \A q \in S : p[1] < q[1] \/ (p[1] = q[1] /\ p[2] <= q[2])
+Last(S) == CHOOSE p \in S : \A q \in S : p[1] > q[1] \/ (p[1] = q[1] /\ p[2] >= q[2])
+FaultCases(s, pop, n) == UNION {IF Places(s, pop, cl) = {} THEN {} ELSE
+                                  {[class |-> cl, i |-> p[1], j |-> p[2], inst |-> Faulty(s, pop, cl, p[1], p[2], n)] :
+                                     p \in {First(Places(s, pop, cl)), Last(Places(s, pop, cl))}} : cl \in FaultClasses}
+
 (* editing states for C16: complete / incomplete / new rotate with the round; an instance that no other instance *)
 (* refers to is marked deleted every second time (the properties leave a deleted but referenced instance open)   *)
 RECURSIVE RefsOf(_)
